@@ -337,6 +337,8 @@ def run(ctx):
             # known deviation: every fixed-struct record is followed by a NUL byte; peel it off and keep checking
             ctx.violation("C13|fixedstruct|nul-byte-after-each-record", "a NUL byte follows the newline of every fixed-struct record", src_dir=d, info=info)
             got = got.replace(b"\n\x00", b"\n")
+            # text messages may themselves hold a NUL at the start of a continuation line: peel those from the prediction too
+            exp = exp.replace(b"\n\x00", b"\n")
             if o["sep"][1] == b"\x00":
                 # separator NUL and the stray NUL are indistinguishable here
                 continue
